@@ -1,0 +1,13 @@
+//go:build verif
+
+package crsign
+
+// Contracts for the deductive verifier under /verif (govc). This file contains
+// only comments: it adds no code with or without the build tag.
+
+//@ spec func sigValid(sig string, chal string, key []byte) bool
+
+//@ func VerifySignature
+//@   trusted
+//@   pure
+//@   ensures [hmac] result == sigValid(sig, chal, key)
